@@ -1594,7 +1594,7 @@ Proof.
   - destruct o; try contradiction; discriminate.
 Qed.
 
-Lemma run_handler_hs strict role cur script : script_ok strict role cur script ->
+Lemma run_handler_hs strict role cur script : script_ok strict role cur script -> no_abandoned_read script ->
   forall f r w, HS r w ->
   match run_handler maxc f script r w with
   | Ok (_, r') w' => HS r' w'
@@ -1602,8 +1602,8 @@ Lemma run_handler_hs strict role cur script : script_ok strict role cur script -
   end.
 Proof.
   induction 1 as [cur|cur n rest H IH|cur rest H IH|cur k rest H IH|cur s rest Hacc H IH|cur rest H IH
-                  |cur s n rest H IH|cur s rest H IH|cur d c rest Hd|cur k rest|cur n rest H IH];
-    intros f r w HSr; (destruct f as [|f]; [cbn [run_handler]; discriminate|]); cbn [run_handler].
+                  |cur s n rest H IH|cur s rest H IH|cur d c rest Hd|cur k rest|cur n rest H IH|cur n rest H IH];
+    intros NA; try (specialize (IH ltac:(inversion NA; assumption))); intros f r w HSr; (destruct f as [|f]; [cbn [run_handler]; discriminate|]); cbn [run_handler].
   - apply HS_ev, HSr.
   - pose proof (await_input_hs (io_fuel w 0) (Some n) r w HSr) as A.
     destruct (await_input maxc (io_fuel w 0) (Some n) r w) as [[[[c b]|k] r1] w1|o w1]; [| |exact A];
@@ -1631,6 +1631,8 @@ Proof.
     destruct (await_input maxc (io_fuel w 0) (Some n) r w) as [[[[c b]|k] r1] w1|o w1]; [| |exact A].
     + apply IH. apply HS_ev, HS_ev, A.
     + apply HS_ev, HS_ev, A.
+  - (* 11 n is not a script that awaits its reads *)
+    inversion NA.
 Qed.
 
 (* ---- input.read(buf).await outside poll_input: Request::record_boundary, Token::parse_request ---- *)
@@ -1890,11 +1892,11 @@ Proof.
 Qed.
 
 (* Token::run never ends in the wait-for cycle *)
-Lemma run_loop_nd scripts : scripts_ok true scripts ->
+Lemma run_loop_nd scripts : scripts_ok true scripts -> Forall no_abandoned_read scripts ->
   forall fuel p served w, parser_ok p -> world_ok w -> PS p w [] ->
   fst (run_loop norm maxc fuel p scripts served w) <> ODeadlock.
 Proof.
-  intros Hscripts. induction fuel as [|f IH]; intros p served w Hp Wok HPS; [cbn [run_loop fst]; discriminate|].
+  intros Hscripts Hna. induction fuel as [|f IH]; intros p served w Hp Wok HPS; [cbn [run_loop fst]; discriminate|].
   cbn [run_loop]. destruct (stopped w); [cbn [fst]; discriminate|].
   pose proof (parse_request_ok norm maxc (io_fuel w 0) p [] w Hp Wok ltac:(apply Forall_nil) ltac:(rewrite len_nil; lia)
                 ltac:(rewrite io_fuel_eq; lia)) as PR.
@@ -1919,7 +1921,9 @@ Proof.
       [exact Hscripts|]. apply Forall_last; [exact Hscripts|]. intros role'. constructor. }
   pose proof (run_handler_ok norm maxc true role _ script Hscript (length script + 2) r0 w2 ltac:(lia) GR0
                 (ws_ok _ _ S2 (ws_ok _ _ S1 Wok)) eq_refl St0) as RH.
-  pose proof (run_handler_hs maxc true role _ script Hscript (length script + 2) r0 w2 HS2) as RN.
+  assert (Hnascript : no_abandoned_read script).
+  { subst script. apply Forall_nth_default; [exact Hna|]. apply Forall_last; [exact Hna|constructor]. }
+  pose proof (run_handler_hs maxc true role _ script Hscript Hnascript (length script + 2) r0 w2 HS2) as RN.
   unfold hpost in RH.
   destruct (run_handler maxc (length script + 2) script r0 w2) as [[st r1] w3|o w3]; [|cbn [fst]; exact RN].
   destruct RH as ((G1 & S3 & _) & Hst).
@@ -1950,10 +1954,10 @@ Qed.
 
 Theorem peer_never_deadlocks : peer_never_deadlocks_stmt.
 Proof.
-  intros norm maxc scripts B sg w0 HB Hs Hsegs Hpeer Hlog Hnf _ _ _ _.
+  intros norm maxc scripts B sg w0 HB Hs Hna Hsegs Hpeer Hlog Hnf _ _ _ _.
   assert (Wok : world_ok w0) by (unfold world_ok; rewrite Hsegs; apply (peer_segs_world sg 0 Hpeer)).
   destruct (run_loop_total norm maxc scripts B w0 Wok Hs HB) as (w & [E|[E _]]); [rewrite E; reflexivity|].
-  exfalso. apply (run_loop_nd norm maxc scripts Hs (nb w0 + 4) (new_parser B) 0%nat w0 (new_parser_ok B HB) Wok);
+  exfalso. apply (run_loop_nd norm maxc scripts Hs Hna (nb w0 + 4) (new_parser B) 0%nat w0 (new_parser_ok B HB) Wok);
     [|rewrite E; reflexivity].
   split; [apply world_ok_remaining; exact Wok|]. split; [exact Hnf|].
   rewrite Hlog, Hsegs. cbn [new_parser st held sk sprem spad]. apply Q_init. exact Hpeer.
@@ -1990,12 +1994,15 @@ Definition ex2_scripts : list (list N) := [[2; 6; 6; 2; 104; 105]].
 
 (* the hypotheses of the theorem hold for it *)
 Example ex2_hyps :
-  64 < SIZE_LIMIT - 8 /\ scripts_ok true ex2_scripts /\ segs (ex2_w 1) = enc_segs (ex2_sg 1) /\ peer_segs 0 (ex2_sg 1) /\
+  64 < SIZE_LIMIT - 8 /\ scripts_ok true ex2_scripts /\ Forall no_abandoned_read ex2_scripts /\
+  segs (ex2_w 1) = enc_segs (ex2_sg 1) /\ peer_segs 0 (ex2_sg 1) /\
   wlog (ex2_w 1) = [] /\ no_fault (wscript (ex2_w 1)) /\ no_read_fault (rscript (ex2_w 1)) /\ stop_at (ex2_w 1) = 0 /\
   stopped (ex2_w 1) = false /\ len (flat_map (fun s : N * N * bytes => snd s) (segs (ex2_w 1))) < SIZE_LIMIT.
 Proof.
   split; [vm_compute; reflexivity|]. split.
   { constructor; [|constructor]. intros role. apply SO_read_all. apply (SO_write true role _ 6 2 [104; 105]). apply SO_nil. }
+  split.
+  { constructor; [|constructor]. apply NA_read_all. apply (NA_write 6 2 [104; 105]). apply NA_nil. }
   split; [reflexivity|]. split.
   { cbn [peer_segs ex2_sg]. split; [reflexivity|]. split; [lia|]. split; [apply rcd_okb_ok; vm_compute; reflexivity|].
     split; [reflexivity|]. split; [vm_compute; discriminate|]. split; [apply rcd_okb_ok; vm_compute; reflexivity|exact I]. }
@@ -2014,8 +2021,8 @@ Proof. vm_compute. repeat split; try reflexivity. right. right. left. reflexivit
 Example ex2_never_deadlocks norm maxc :
   fst (run_loop norm maxc (nb (ex2_w 1) + 4) (new_parser 64) ex2_scripts 0 (ex2_w 1)) = ORet.
 Proof.
-  destruct ex2_hyps as (H1 & H2 & H3 & H4 & H5 & H6 & H7 & H8 & H9 & H10).
-  exact (peer_never_deadlocks norm maxc ex2_scripts 64 (ex2_sg 1) (ex2_w 1) H1 H2 H3 H4 H5 H6 H7 H8 H9 H10).
+  destruct ex2_hyps as (H1 & H2 & H2' & H3 & H4 & H5 & H6 & H7 & H8 & H9 & H10).
+  exact (peer_never_deadlocks norm maxc ex2_scripts 64 (ex2_sg 1) (ex2_w 1) H1 H2 H2' H3 H4 H5 H6 H7 H8 H9 H10).
 Qed.
 
 (* the hypothesis on the gates matters: a client that asks for two management replies when it is owed one is waited
@@ -2028,7 +2035,58 @@ Proof.
   cbn [peer_segs ex2_sg]. intros (_ & _ & _ & _ & H & _). vm_compute in H. apply H. reflexivity.
 Qed.
 
+(* the hypothesis [no_abandoned_read] matters too.  The GetValues query comes BEFORE the Stdin data, the second segment
+   (the end of Stdin) is released after one management reply, the transport accepts 3 bytes and is then not ready once
+   (wscript = [3; 0]).  The handler reads "abc" (the reply to the query is now pending in the parser's output buffer),
+   polls a read once and drops it (op 11: poll_output has written 3 bytes of the reply when the transport returns
+   Pending), writes "hi" to Stdout, reads to the end.  Every other hypothesis of the theorem holds -- the script is
+   well-formed, the client asks for one reply and is owed one -- but the Stdout record lies in the middle of the cut reply,
+   the client cannot count it and the task ends in the wait-for cycle.  With the read awaited (op 1) the same run returns. *)
+Definition ex2p_rs1 : list rcd :=
+  [ mkRcd RT_BeginRequest 1 (begin_encode ROLE_Responder 0) [];
+    mkRcd RT_Params 1 [] [];
+    mkRcd RT_GetValues 0 [14; 0; 70; 67; 71; 73; 95; 77; 65; 88; 95; 67; 79; 78; 78; 83] [];
+    mkRcd 5 1 [97; 98; 99] [0; 0; 0; 0; 0] ].
+Definition ex2p_sg : list (N * N * list rcd) := [ (0, 0, ex2p_rs1); (0, 1, [ mkRcd 5 1 [] [] ]) ].
+Definition ex2p_w : world := mkW [] [3; 0] (enc_segs ex2p_sg) [] 0 1 0 false false [].
+Definition ex2p_scripts (op : N) : list (list N) := [[1; 3; op; 5; 6; 6; 2; 104; 105; 2]].
+
+Example ex2p_hyps :
+  64 < SIZE_LIMIT - 8 /\ scripts_ok true (ex2p_scripts 11) /\ ~ Forall no_abandoned_read (ex2p_scripts 11) /\
+  Forall no_abandoned_read (ex2p_scripts 1) /\
+  segs ex2p_w = enc_segs ex2p_sg /\ peer_segs 0 ex2p_sg /\
+  wlog ex2p_w = [] /\ no_fault (wscript ex2p_w) /\ no_read_fault (rscript ex2p_w) /\ stop_at ex2p_w = 0 /\
+  stopped ex2p_w = false /\ len (flat_map (fun s : N * N * bytes => snd s) (segs ex2p_w)) < SIZE_LIMIT.
+Proof.
+  split; [vm_compute; reflexivity|]. split.
+  { constructor; [|constructor]. intros role. apply SO_read. apply SO_poll. apply (SO_write true role _ 6 2 [104; 105; 2]).
+    apply SO_read_all. apply SO_nil. }
+  split.
+  { intros H. inversion H as [|x l Hx Hl]; subst. inversion Hx as [|n rest Hr| | | | | | | | |]; subst. inversion Hr. }
+  split.
+  { constructor; [|constructor]. apply NA_read. apply NA_read. apply (NA_write 6 2 [104; 105; 2]). apply NA_read_all. apply NA_nil. }
+  split; [reflexivity|]. split.
+  { cbn [peer_segs ex2p_sg]. split; [reflexivity|]. split; [lia|]. split; [apply rcd_okb_ok; vm_compute; reflexivity|].
+    split; [reflexivity|]. split; [vm_compute; discriminate|]. split; [apply rcd_okb_ok; vm_compute; reflexivity|exact I]. }
+  split; [reflexivity|]. split; [repeat constructor; discriminate|]. split; [constructor|]. split; [reflexivity|].
+  split; [reflexivity|]. vm_compute. reflexivity.
+Qed.
+
+Example ex2p_abandoned_read_deadlocks :
+  let r := run_loop (fun b => b) 10 (nb ex2p_w + 4) (new_parser 64) (ex2p_scripts 11) 0 ex2p_w in
+  fst r = ODeadlock /\ counts (wlog (snd r)) = (0, 0) /\ remaining (snd r) = enc_rcds [ mkRcd 5 1 [] [] ] /\
+  In [11; 2; 0; 1] (events (snd r)) /\ In [6; 0] (events (snd r)).
+Proof. vm_compute. repeat split; try reflexivity; tauto. Qed.
+
+Example ex2p_awaited_read_returns :
+  let r := run_loop (fun b => b) 10 (nb ex2p_w + 4) (new_parser 64) (ex2p_scripts 1) 0 ex2p_w in
+  fst r = ORet /\ counts (wlog (snd r)) = (1, 1) /\ remaining (snd r) = [].
+Proof. vm_compute. repeat split; reflexivity. Qed.
+
 Print Assumptions ex2_hyps.
+Print Assumptions ex2p_hyps.
+Print Assumptions ex2p_abandoned_read_deadlocks.
+Print Assumptions ex2p_awaited_read_returns.
 Print Assumptions ex2_returns.
 Print Assumptions ex2_never_deadlocks.
 Print Assumptions ex2_greedy_deadlocks.
